@@ -201,6 +201,27 @@ def multi_type_subscription_probe():
             await feed_all("after A unsubscribed", [("B", "SwitchStateResponse")])
             rm_b()
             await feed_all("after both unsubscribed", [])
+            # the only subscriber of a type subscribes another one from inside its callback: the newcomer was not registered when the
+            # message was dispatched, so it sees the next message, not this one; then the first removes itself from inside its callback
+            box = {}
+
+            def first(m):
+                seen.append(("first", m.key))
+                if "second" not in box:
+                    box["second"] = conn.add_message_callback(lambda m2: seen.append(("second", m2.key)), (pb.SensorStateResponse,))
+                elif m.key == 3:
+                    box["rm_first"]()
+            box["rm_first"] = conn.add_message_callback(first, (pb.SensorStateResponse,))
+            for key, want in ((1, [("first", 1)]), (2, [("first", 2), ("second", 2)]), (3, [("first", 3), ("second", 3)]), (4, [("second", 4)])):
+                del seen[:]
+                r = tr.feed(simnet.plain_msg(pb.SensorStateResponse(key=key)))
+                await simnet.drain(loop)
+                if isinstance(r, BaseException) or sorted(seen) != sorted(want):
+                    problems.append(f"sole subscriber that subscribes another one / removes itself inside its callback, message {key}: callbacks {sorted(seen)}, expected {sorted(want)}"
+                                    + (f"; {type(r).__name__} escaped from data_received" if isinstance(r, BaseException) else ""))
+                    break
+            if "second" in box:
+                box["second"]()
             await cli.disconnect(force=True)
             await simnet.drain(loop)
         return problems
